@@ -519,7 +519,12 @@ func c01Step(t *rapid.T, p c01Pools) []kit.Argv {
 		// of results. Only commands whose replies consist of RESP2 types in both protocols are queued.
 		out := []kit.Argv{kit.A(cn("MULTI"))}
 		for i, n := 0, rapid.IntRange(1, 4).Draw(t, "nq"); i < n; i++ {
-			switch c01U(t, "queued", 12) {
+			switch c01U(t, "queued", 15) {
+			case 12, 13:
+				// an error produced when the queued command runs, quoting client bytes: it travels inside the EXEC array
+				out = append(out, kit.A(cn("CLIENT"), cn("KILL"), cn("USER"), p.val(t)+"-nosuchuser"))
+			case 14:
+				out = append(out, kit.A(cn("SETEX"), p.key(t, 0), "0", p.val(t)))
 			case 0:
 				out = append(out, kit.A(cn("SET"), p.key(t, 0), p.val(t)))
 			case 1:
